@@ -67,6 +67,15 @@ theorem C11_flags_bits_preserved (cfg : Cfg) (st : St) (now : Nat) (sp : SendPar
   intro k
   rw [(C11_primary_unchanged cfg st now sp c0 b h).2.1]
 
+/-- **The primary EIDs leave as received, whatever their text**: destination, source and
+    report-to are opaque octet strings to the forwarder — a query or fragment part (`?…`, `#…`, empty
+    ones included) is part of the scheme-specific part and is neither parsed nor rebuilt. -/
+theorem C11_eids_unchanged (cfg : Cfg) (st : St) (now : Nat) (sp : SendParams) (c0 : Ctr)
+    (b : Bundle) (h : fwdOut cfg st now sp c0 = some b) :
+    b.primary.dest = c0.primary.dest ∧ b.primary.src = c0.primary.src ∧ b.primary.rpt = c0.primary.rpt := by
+  obtain ⟨_, _, h3, h4, h5, _⟩ := C11_primary_unchanged cfg st now sp c0 b h
+  exact ⟨h3, h4, h5⟩
+
 /-- witnesses shared with the harness (harness/props/c11.py `w_d11`, `w_life0`, …) -/
 def wCfg : Cfg := { nodeId := .dtn [47, 47, 110, 111, 100, 101, 47], rxRoutes := [.forward] }
 def wSp : SendParams := { txBits := [true] }
@@ -85,6 +94,9 @@ def wNullRpt : Ctr :=
 example : ∃ b, fwdOut wCfg {} 9000 wSp wD11 = some b ∧ b.primary.ts = ⟨0, 7⟩
     ∧ b.blocks.map (·.typeCode) = [6, 1] := ⟨_, rfl, by decide, by decide⟩
 example : ∃ b, fwdOut wCfg {} 9000 wSp wLife0 = some b ∧ b.primary.lifetime = 0 := ⟨_, rfl, by decide⟩
+-- destination dtn://far/x#inbox (harness `w_eidparts`): the '#inbox' stays
+example : ∃ b, fwdOut wCfg {} 9000 wSp { primary := { wPri 5000 0 60000 with dest := .dtn [47, 47, 102, 97, 114, 47, 120, 35, 105, 110, 98, 111, 120] }, blocks := [wPay] } = some b
+    ∧ b.primary.dest = .dtn [47, 47, 102, 97, 114, 47, 120, 35, 105, 110, 98, 111, 120] := ⟨_, rfl, by decide⟩
 -- a reserved flag bit (0x200000) next to NO_FRAGMENT, primary CRC type 0 (harness `w_resflags`)
 example : ∃ b, fwdOut wCfg {} 9000 wSp { primary := { wPri 5000 0 60000 with flags := 0x200004 }, blocks := [wPay] } = some b
     ∧ b.primary.flags = 0x200004 := ⟨_, rfl, by decide⟩
